@@ -16,6 +16,8 @@ else:
 bad = []
 for d in sorted(glob.glob(f"{V}/seeded/*")):
     sid = os.path.basename(d)
+    if not os.path.isdir(d):
+        continue
     if sel and not any(x in sid for x in sel):
         continue
     m = json.load(open(f"{d}/meta.json"))
